@@ -31,12 +31,13 @@ InitSt == [ H     |-> <<>>,   \* handle id -> handle record (see MkH)
             N     |-> <<>>,   \* graph node id -> [par : Seq(node), const, cr (has creator), clr (was cleared)]
             mem   |-> <<>>,   \* buffer id -> Seq(Dual)
             pv    |-> <<>>,   \* buffer id -> Seq(VarId)   current perturbation variable of each cell (0 = none)
-            al    |-> <<>>,   \* buffer id -> Seq(SUBSET VarId)  earlier variables of a cell whose graph was cleared
             nv    |-> 0,      \* perturbation variables allocated so far
             clk   |-> 0,      \* statement counter (orders node creation and clearing)
             g     |-> <<>>,   \* handle id -> None | Some(Seq(Rat))   gradient stored on an OWNER (per buffer cell)
             gen   |-> <<>>,   \* handle id -> generation number of the gradient array stored on the owner
             ngen  |-> 0,
+            track |-> TRUE,   \* graph tracking switch (no_autodiff scopes)
+            tsaved |-> <<>>,  \* values of `track` saved by the enclosing no_autodiff scopes
             kf    |-> {},     \* known-finding triggers this history has passed (DESIGN 4.4 / section 7)
             exc   |-> "none"  \* exception class the last statement is predicted to raise
           ]
@@ -48,7 +49,8 @@ MkH(kind, buf, imap, sh, const, node, base, par) ==
    \* kids : registered view children (handle ids);  gc : generation of the base gradient a stale view cached
 
 Handles(st)   == {h \in 1..Len(st.H) : st.H[h].live}
-Cells(st, h)  == LET r == st.H[h] IN [k \in 1..Len(r.imap) |-> st.mem[r.buf][r.imap[k]]]
+\* (TLCEval forces TLC to materialise a function instead of re-evaluating its lazy definition on every access)
+Cells(st, h)  == LET r == st.H[h] IN TLCEval([k \in 1..Len(r.imap) |-> st.mem[r.buf][r.imap[k]]])
 Vals(st, h)   == LET r == st.H[h] IN [k \in 1..Len(r.imap) |-> st.mem[r.buf][r.imap[k]].v]
 Root(st, h)   == IF st.H[h].base = 0 THEN h ELSE st.H[h].base
 CellSet(st, h) == {st.H[h].imap[k] : k \in 1..Len(st.H[h].imap)}
@@ -60,23 +62,24 @@ PutH(st, h, rec) ==
   IF h = n + 1 THEN [st EXCEPT !.H = Append(@, rec), !.g = Append(@, None), !.gen = Append(@, 0)]
   ELSE [st EXCEPT !.H[h] = rec, !.g[h] = None, !.gen[h] = 0]
 
-NewNode(st, par, const, cr) ==
-  [st EXCEPT !.N = Append(@, [par |-> par, const |-> const, cr |-> cr, clr |-> FALSE, born |-> st.clk, clrAt |-> 0])]
+\* nb : the buffer the node's tensor OWNS (0 for views, which live in their base's buffer)
+NewNodeB(st, par, const, cr, nb) ==
+  [st EXCEPT !.N = Append(@, [par |-> par, const |-> const, cr |-> cr, clr |-> FALSE, born |-> st.clk, clrAt |-> 0, buf |-> nb])]
+NewNode(st, par, const, cr) == NewNodeB(st, par, const, cr, 0)
 
 \* allocate a buffer holding `ds`; non-constant buffers get one fresh perturbation variable per cell
 NewBuf(st, ds, const) ==
   LET n == Len(ds)
       vars  == [i \in 1..n |-> IF const THEN 0 ELSE st.nv + i]
-      cells == [i \in 1..n |-> IF const THEN DC(ds[i].v) ELSE D(ds[i].v, TAdd(ds[i].t, TUnit(vars[i])))]
-  IN [st EXCEPT !.mem = Append(@, cells), !.pv = Append(@, vars), !.al = Append(@, [i \in 1..n |-> {}]),
-                !.nv = IF const THEN @ ELSE @ + n]
+      cells == TLCEval([i \in 1..n |-> IF const THEN DC(ds[i].v) ELSE D(ds[i].v, TAdd(ds[i].t, TUnit(vars[i])))])
+  IN [st EXCEPT !.mem = Append(@, cells), !.pv = Append(@, vars), !.nv = IF const THEN @ ELSE @ + n]
 
 \* ------------------------------------------------------------------ operands
 \* An operand is a tensor handle {h}, a Python scalar {s}, or an inline constant array {arr: [sh, v]}.
 IsH(o) == Has(o, "h")
 OpSh(st, o)    == IF IsH(o) THEN st.H[o.h].sh ELSE IF Has(o, "s") THEN <<>> ELSE o.arr.sh
 OpCells(st, o) == IF IsH(o) THEN Cells(st, o.h) ELSE IF Has(o, "s") THEN <<DC(o.s)>>
-                  ELSE [k \in 1..Len(o.arr.v) |-> DC(o.arr.v[k])]
+                  ELSE TLCEval([k \in 1..Len(o.arr.v) |-> DC(o.arr.v[k])])
 OpConst(st, o) == IF IsH(o) THEN st.H[o.h].const ELSE TRUE
 OpNodes(st, os) == LET hs == SelectIdx(Len(os), LAMBDA i : IsH(os[i])) IN [k \in 1..Len(hs) |-> st.H[os[hs[k]].h].node]
 OpHandles(os) == {os[i].h : i \in {j \in 1..Len(os) : IsH(os[j])}}
@@ -94,16 +97,32 @@ NullOnUse(st, hs) ==
              !.H = [h \in DOMAIN @ |-> IF h \in hs /\ @[h].base # 0 /\ ~HasCr(st, h)
                                        THEN [@[h] EXCEPT !.base = 0, !.par = 0, !.gc = 0] ELSE @[h]]]
 
-\* result of a non-view operation: fresh buffer, fresh node, fresh handle
+\* result of a non-view operation: fresh buffer, fresh node, fresh handle.
+\* With tracking off (C15) nothing is recorded: the result is a fresh leaf (no creator, no parents), operands
+\* keep their gradients, and - constant-ness not being inferred from a graph - a float result is non-constant
+\* unless the `constant` keyword says otherwise.
 MkResult(st, s, sh, cells, os) ==
-  LET const == ResConst(st, os, Kw(s, "kw", <<>>))
-      st0 == NullOnUse(st, OpHandles(os))
-      st1 == NewBuf(st0, cells, const)
-      st2 == NewNode(st1, OpNodes(st, os), const, TRUE)
-  IN PutH(st2, s.h, MkH("t", Len(st1.mem), Iota(Len(cells)), sh, const, Len(st2.N), 0, 0))
+  IF st.track THEN
+    LET const == ResConst(st, os, Kw(s, "kw", <<>>))
+        st0 == NullOnUse(st, OpHandles(os))
+        st1 == NewBuf(st0, cells, const)
+        st2 == NewNodeB(st1, OpNodes(st, os), const, TRUE, Len(st1.mem))
+    IN PutH(st2, s.h, MkH("t", Len(st1.mem), Iota(Len(cells)), sh, const, Len(st2.N), 0, 0))
+  ELSE
+    LET const == Kw(Kw(s, "kw", <<>>), "constant", "none") = "true"
+        st1 == NewBuf(st, [i \in 1..Len(cells) |-> DC(cells[i].v)], const)
+        st2 == NewNodeB(st1, <<>>, const, FALSE, Len(st1.mem))
+    IN PutH(st2, s.h, MkH("t", Len(st1.mem), Iota(Len(cells)), sh, const, Len(st2.N), 0, 0))
 
 \* result of a view operation on tensor handle a: same buffer, gathered index map
+MkViewUntracked(st, s, a, sh, gth) ==      \* shares the memory, but no base / creator / registration
+  LET src == st.H[a]
+      const == Kw(Kw(s, "kw", <<>>), "constant", "none") = "true"
+      st1 == NewNode(st, <<>>, const, FALSE)
+  IN PutH(st1, s.h, MkH("t", src.buf, Gather(src.imap, gth), sh, const, Len(st1.N), 0, 0))
+
 MkView(st, s, a, sh, gth) ==
+  IF ~st.track THEN MkViewUntracked(st, s, a, sh, gth) ELSE
   LET src == st.H[a]
       c == Kw(Kw(s, "kw", <<>>), "constant", "none")
       const == IF c = "true" THEN TRUE ELSE IF c = "false" THEN FALSE ELSE src.const
@@ -230,7 +249,9 @@ ApplyOp(st, s) ==
             \* nothing to squeeze, on a memory owner).  MyGrad then records a NON-view tensor over the same
             \* array (no .base, no view bookkeeping), so later in-place updates do not propagate.
             passthru == f = "squeeze" /\ sh = src.sh /\ src.base = 0
-            st0 == IF passthru THEN [st EXCEPT !.kf = @ \cup {"F-C04-1"}] ELSE st
+            \* KNOWN FINDING F-C02-1 (trigger): repeat of a tensor with a zero-length axis cannot be back-propagated
+            emptyrep == f = "repeat" /\ Size(src.sh) = 0
+            st0 == [st EXCEPT !.kf = @ \cup (IF passthru THEN {"F-C04-1"} ELSE {}) \cup (IF emptyrep THEN {"F-C02-1"} ELSE {})]
         IN IF StructIsView(f, s, src, newimap, sh)
            THEN MkView(st0, s, a, sh, g)
            ELSE MkResult(st0, s, sh, Gather(Cells(st, a), g), os)
@@ -239,7 +260,7 @@ ApplyOp(st, s) ==
 \* s = [k |-> "leaf", h, sh, v (Seq of Rat), const]
 ApplyLeaf(st, s) ==
   LET st1 == NewBuf(st, [i \in 1..Len(s.v) |-> DC(s.v[i])], s.const)
-      st2 == NewNode(st1, <<>>, s.const, FALSE)
+      st2 == NewNodeB(st1, <<>>, s.const, FALSE, Len(st1.mem))
   IN PutH(st2, s.h, MkH("t", Len(st1.mem), Iota(Len(s.v)), s.sh, s.const, Len(st2.N), 0, 0))
 
 \* ------------------------------------------------------------------ in-place updates
@@ -252,7 +273,16 @@ Family(st, h) == {h} \cup UNION {Family(st, k) : k \in {x \in st.H[h].kids : st.
 \* the family moves to a fresh buffer; aliases outside the family (there are none within one graph epoch,
 \* which is the scope of C04) keep the old one.  All cells of the new buffer get fresh perturbation
 \* variables: the post-update value of the base is what `x.grad` refers to from now on (C05).
+\* with tracking off an in-place update writes straight into the tensor's own memory (every alias sees it),
+\* records nothing and leaves all gradients alone (C15)
+InPlaceUntracked(st, t, newc) ==
+  LET b == st.H[t].buf IN
+  [st EXCEPT !.mem[b] = [c \in 1..Len(@) |-> IF c \in DOMAIN newc
+                                               THEN D(newc[c].v, IF st.pv[b][c] = 0 THEN TZero ELSE TUnit(st.pv[b][c]))
+                                               ELSE @[c]]]
+
 InPlace(st, t, newc, srcs, oldIsInput) ==
+  IF ~st.track THEN InPlaceUntracked(st, t, newc) ELSE
   LET tr == st.H[t]
       \* an in-place update on a stale view: the tensor first detaches (it becomes its own base) (C07)
       detach == tr.base # 0 /\ (~HasCr(st, t) \/ t \notin Family(st, tr.base))
@@ -261,7 +291,7 @@ InPlace(st, t, newc, srcs, oldIsInput) ==
       n == Len(st.mem[b])
       const == st.H[r].const
       fam == Family(st, r)
-      raw  == [c \in 1..n |-> IF c \in DOMAIN newc THEN newc[c] ELSE st.mem[b][c]]
+      raw  == TLCEval([c \in 1..n |-> IF c \in DOMAIN newc THEN newc[c] ELSE st.mem[b][c]])
       \* gradients: the family's gradient is gone; so is that of owners used as value operands
       \* KNOWN FINDING F-C09-1 (trigger): an operation recorded BEFORE some clear_graph/backward emptied the
       \* consumer set of a family member still consumes that member; MyGrad's in-place machinery re-routes
@@ -278,7 +308,7 @@ InPlace(st, t, newc, srcs, oldIsInput) ==
       \*  replaces the whole base: then nothing upstream of the old contents is upstream of the new ones)
       rootpar == (IF oldIsInput \/ t # r THEN <<oldn(r)>> ELSE <<>>)
                  \o (IF t # r /\ oldIsInput THEN <<oldn(t)>> ELSE <<>>) \o OpNodes(st, srcs)
-      st2 == NewNode(st1, rootpar, const, TRUE)
+      st2 == NewNodeB(st1, rootpar, const, TRUE, nb)
       st3 == [st2 EXCEPT !.H = [h \in DOMAIN @ |->
                                   IF h = r THEN [@[h] EXCEPT !.buf = nb, !.node = Len(st2.N), !.base = 0, !.par = 0]
                                   ELSE IF h \in fam THEN [@[h] EXCEPT !.buf = nb] ELSE @[h]]]
@@ -351,20 +381,30 @@ ClearNodes(st, ns) ==
                   ELSE r.gc
       st1 == [st EXCEPT !.N = [n \in DOMAIN @ |-> IF n \in ns THEN [@[n] EXCEPT !.cr = FALSE, !.clr = TRUE, !.clrAt = st.clk] ELSE @[n]],
                         !.H = [h \in DOMAIN @ |-> IF h \in hs THEN [@[h] EXCEPT !.kids = {}, !.gc = newgc(st.H[h])] ELSE @[h]]]
-      \* A cleared tensor that had a creator is a leaf from now on: what is built on it later must not
-      \* differentiate through its former history.  Its cells get fresh perturbation variables (the old
-      \* ones stay as aliases, because graphs recorded earlier still refer to them).
-      own == {h \in hs : st.H[h].base = 0 /\ st.N[st.H[h].node].cr /\ ~st.H[h].const}
+      \* A cleared tensor that had a creator is a LEAF from now on: whatever is (or was) computed from it no
+      \* longer differentiates through its former history - backward() through an older graph that reaches it
+      \* stops there (the behaviour the repository's state-machine test pins down).  In terms of tangents this
+      \* is a change of variables: for every cell c of the cleared tensor with tangent  unit(v_c) + u_c , every
+      \* dual anywhere in memory loses  coef(v_c) * u_c , and the cell itself keeps  unit(v_c).
+      cutbufs == {st.N[n].buf : n \in {x \in ns : st.N[x].cr /\ ~st.N[x].const /\ st.N[x].buf # 0}}
       RECURSIVE Cut(_, _)
       Cut(x, todo) ==
         IF todo = {} THEN x ELSE
-        LET h == CHOOSE y \in todo : TRUE
-            b == x.H[h].buf n == Len(x.mem[b])
-            vars == [c \in 1..n |-> x.nv + c]
-        IN Cut([x EXCEPT !.mem[b] = [c \in 1..n |-> D(@[c].v, TUnit(vars[c]))],
-                         !.al[b] = [c \in 1..n |-> @[c] \cup {x.pv[b][c]}],
-                         !.pv[b] = vars, !.nv = @ + n], todo \ {h})
-  IN Cut(st1, own)
+        LET b == CHOOSE y \in todo : TRUE
+            n == Len(x.mem[b])
+            up == TLCEval([c \in 1..n |-> [k \in (DOMAIN x.mem[b][c].t) \ {x.pv[b][c]} |-> x.mem[b][c].t[k]]])
+            cs == {c \in 1..n : DOMAIN up[c] # {}}
+            RECURSIVE Sub(_, _)
+            Sub(t, rest) == IF rest = {} THEN t ELSE
+                            LET c == CHOOSE y \in rest : TRUE
+                                k == TGet(t, x.pv[b][c])
+                            IN Sub(IF RIsZero(k) THEN t ELSE TAdd(t, TScale(RNeg(k), up[c])), rest \ {c})
+        IN IF cs = {} THEN Cut(x, todo \ {b})
+           ELSE Cut([x EXCEPT !.mem = TLCEval([b2 \in DOMAIN @ |-> TLCEval([d \in DOMAIN @[b2] |->
+                                          IF b2 = b /\ d \in cs THEN D(@[b2][d].v, TUnit(x.pv[b][d]))
+                                          ELSE IF DOMAIN @[b2][d].t = {} THEN @[b2][d]
+                                          ELSE D(@[b2][d].v, TLCEval(Sub(@[b2][d].t, cs)))])])], todo \ {b})
+  IN Cut(st1, cutbufs)
 
 \* ------------------------------------------------------------------ backward
 SeedOK(st, s) == ~Has(s, "seed") \/ (BTo(OpSh(st, s.seed), st.H[s.h].sh))
@@ -374,14 +414,12 @@ SeedCells(st, s) ==
   ELSE LET c == OpCells(st, s.seed) g == BGather(OpSh(st, s.seed), sh) IN [p \in 1..Size(sh) |-> c[g[p]].v]
 
 Adjoint(st, tot, h) ==     \* stored per cell of the owner's buffer
-  LET b == st.H[h].buf
-      RECURSIVE SumAl(_)
-      SumAl(ks) == IF ks = {} THEN RZero ELSE LET k == CHOOSE x \in ks : TRUE IN RAdd(TGet(tot, k), SumAl(ks \ {k}))
-  IN [c \in 1..Len(st.mem[b]) |-> RAdd(TGet(tot, st.pv[b][c]), SumAl(st.al[b][c]))]
+  LET b == st.H[h].buf IN [c \in 1..Len(st.mem[b]) |-> TGet(tot, st.pv[b][c])]
 
 ApplyBackward(st, s) ==
   LET L == s.h lr == st.H[L] IN
-  IF lr.const THEN ClearNodes(st, UpAll(st, lr.node))
+  IF ~st.track THEN st        \* backward() does nothing while tracking is off
+  ELSE IF lr.const THEN ClearNodes(st, UpAll(st, lr.node))
   ELSE
   LET seed == SeedCells(st, s)
       c == Cells(st, L)
@@ -400,6 +438,10 @@ ApplyClear(st, s) == ClearNodes(st, UpAll(st, st.H[s.h].node))
 ApplyNullGrad(st, s) == IF st.H[s.h].base = 0 THEN [st EXCEPT !.g[s.h] = None]
                         ELSE [st EXCEPT !.H[s.h].gc = 0]
 ApplyDrop(st, s) == [st EXCEPT !.H[s.h].live = FALSE]
+\* scopes: only no_autodiff changes what the reference observes (the memory guard is MemGuard.tla's subject)
+ApplyEnter(st, s) == IF s.m = "no_autodiff" THEN [st EXCEPT !.tsaved = Append(@, st.track), !.track = FALSE] ELSE st
+ApplyExit(st, s)  == IF s.m = "no_autodiff" THEN [st EXCEPT !.track = st.tsaved[Len(st.tsaved)], !.tsaved = SubSeq(@, 1, Len(@) - 1)]
+                     ELSE st
 
 \* a backward through a graph part of which was cleared AFTER it was recorded may raise InvalidBackprop (C09)
 PartialClear(st, L) ==
@@ -417,6 +459,8 @@ Apply(st0, s) ==
     [] s.k = "clear"    -> ApplyClear(st, s)
     [] s.k = "nullgrad" -> ApplyNullGrad(st, s)
     [] s.k = "drop"     -> ApplyDrop(st, s)
+    [] s.k = "enter"    -> ApplyEnter(st, s)
+    [] s.k = "exit"     -> ApplyExit(st, s)
 
 \* ------------------------------------------------------------------ projection (what a user can observe)
 \* gradient read through the public `.grad` property
